@@ -920,15 +920,15 @@ Lemma own_pid_handle_follows_table h me :
   wf_hist h = true -> 0 <= me < PID_MAX ->
   (owner (run h) me = None -> outcome_of (run h) (EC (process_noarg me)) = Exc NoSuchProcess)
   /\ (forall n, outcome_of (run h) (EC (process_noarg me)) = Val (RObj n) ->
-        let w' := next (run h) (EC (process_noarg me)) in
-        has_obj w' n = true /\ obj_pid w' n = me /\ owner (run h) me = Some (g_inc w' n)
-        /\ outcome_of w' (EC (IsRunning n)) = Val (RBool (alive w' (g_inc w' n)))).
+        let h' := h ++ [EC (process_noarg me)] in
+        wf_hist h' = true /\ has_obj (run h') n = true /\ obj_pid (run h') n = me
+        /\ owner (run h) me = Some (g_inc (run h') n)
+        /\ outcome_of (run h') (EC (IsRunning n)) = Val (RBool (alive (run h') (g_inc (run h') n)))).
 Proof.
   intros W R. unfold process_noarg. split.
   - intros Ow. exact (proj1 (popen_gone_child h me W R Ow)).
-  - intros n E. cbn zeta. destruct (new_records_owner h me n W E) as (_ & H1 & H2 & H3).
-    repeat split; try assumption.
-    change (next (run h) (EC (New me))) with (run (h ++ [EC (New me)])) || idtac.
-    admit.
-Abort.
-
+  - intros n E. cbn zeta. pose proof (wf_snoc_call h (New me) W) as W'.
+    destruct (new_records_owner h me n W E) as (_ & H1 & H2 & H3).
+    rewrite run_snoc. repeat split; try assumption.
+    rewrite <- run_snoc. apply is_running_answer; [exact W'|]. rewrite run_snoc. exact H1.
+Qed.
